@@ -301,6 +301,47 @@ def snapshots(ctx):
                     ctx.violation('a fresh %s grader grades differently after another grader was used' % nm, {'scenario': 'cross-instance', 'disturber': di}, impl=now, expected=baseline[nm])
                     baseline[nm] = now
         ctx.case({'scenario': 'cross-instance', 'round': k}, nontrivial_key=('cross', k), kind='cross-instance')
+    # a comparer may hand back the SAME dictionary object every time (a module-level constant of the author's): it must not be changed, and the
+    # verdict must be the same at every call and for a fresh grader
+    shared_res = {'grade_decimal': 0.4, 'msg': 'close enough'}
+    before_shared = dict(shared_res)
+    def const_comparer(comparer_params_eval, student_eval, utils):
+        return shared_res
+    for credit in (1, 0.5):
+        first = None
+        for rep in range(4):
+            g = FormulaGrader(answers={'expect': {'comparer': const_comparer, 'comparer_params': ['x']}, 'grade_decimal': credit}, variables=['x']) if rep % 2 == 0 else g
+            kind, val = GG.run_impl(lambda: g(None, 'x + 1'))
+            ctx.contract_checks += 1
+            out = canon(kind, val, False)
+            if first is None:
+                first = out
+            elif out != first:
+                ctx.violation('the same submission is graded differently at a later call (a comparer returned the same result object again)', {'scenario': 'shared-comparer-result', 'answer_credit': credit, 'call': rep}, impl=out, expected=first)
+                break
+            if shared_res != before_shared:
+                ctx.violation("the dictionary returned by the author's comparer was changed by the grader", {'scenario': 'shared-comparer-result', 'answer_credit': credit}, impl=dict(shared_res), expected=before_shared)
+                shared_res.clear(); shared_res.update(before_shared)
+                break
+        ctx.case({'scenario': 'shared-comparer-result', 'credit': credit}, nontrivial_key=('shared-comparer', credit), kind='snapshot')
+    # the host process's own numpy error settings survive grader calls (the library installs its handler at import, not at every evaluation)
+    import numpy as _np
+    saved_err, saved_call = _np.geterr(), _np.geterrcall()
+    try:
+        host_call = lambda *a: None
+        _np.seterr(divide='warn', over='ignore', invalid='warn'); _np.seterrcall(host_call)
+        host = (dict(_np.geterr()), _np.geterrcall())
+        for mkg, inp in [(lambda: FormulaGrader(answers='x+1', variables=['x']), 'x+1'), (lambda: NumericalGrader(answers='2'), '1+1'), (lambda: MatrixGrader(answers='[1,2]'), '[1,2]'),
+                         (lambda: FormulaGrader(answers='sqrt(x)', variables=['x']), 'x^0.5')]:
+            GG.run_impl(lambda: mkg()(None, inp))
+            ctx.contract_checks += 1
+            now = (dict(_np.geterr()), _np.geterrcall())
+            if now != host:
+                ctx.violation("a grader call replaced the host process's numpy error settings", {'scenario': 'host-numpy-settings', 'input': inp}, impl=repr(now)[:200], expected=repr(host)[:200])
+                break
+        ctx.case({'scenario': 'host-numpy-settings'}, nontrivial_key=('host-np',), kind='snapshot')
+    finally:
+        _np.seterr(**saved_err); _np.seterrcall(saved_call)
     # evaluator scopes are not mutated
     from mitxgraders.helpers.calc.expressions import evaluator
     import numpy as np
